@@ -29,3 +29,53 @@ const CustomSpec = `{"openapi":"3.0.3","info":{"title":"t","version":"1","x-ogen
    "rec":{"$ref":"#/components/schemas/Obj"},
    "one":{"oneOf":[{"type":"string"},{"type":"integer"}]}},
   "x-ogen-properties":{"zeta":{"name":"Zed"}}}}}}`
+
+// ShapesSpec collects constructs whose processing ranges over a map and combines the entries:
+// masked and plain media types in one response, one oauth2 scheme in several alternatives with
+// overlapping scopes, several response headers, discriminator mappings, pattern properties next to
+// properties, x- extensions, server variables, several webhooks, parameters with content, allOf merges.
+const ShapesSpec = `{"openapi":"3.1.0","info":{"title":"t","version":"1","x-b":1,"x-a":2},
+"servers":[{"url":"https://{c}.{a}.example.com/{b}","x-ogen-server-name":"Main","variables":{"a":{"default":"x"},"b":{"default":"y","enum":["y","z"]},"c":{"default":"w"}}}],
+"paths":{
+ "/mixed":{"get":{"operationId":"mixed","security":[{"O":["read","write","admin"]},{"O":["read","write","audit","x1","x2"]},{"O":["x2","x1"],"K":[]}],
+   "responses":{"200":{"description":"ok","headers":{"X-C":{"schema":{"type":"string"}},"X-A":{"schema":{"type":"integer"}},"X-B":{"schema":{"type":"array","items":{"type":"string"}}}},
+     "content":{"application/json":{"schema":{"type":"string"}},"image/*":{"schema":{"type":"string","format":"binary"}},"text/plain":{"schema":{"type":"string"}},"application/*":{"schema":{"type":"string","format":"binary"}}}},
+    "4XX":{"description":"c","content":{"application/json":{"schema":{"$ref":"#/components/schemas/Err"}},"*/*":{"schema":{"type":"string","format":"binary"}}}},
+    "default":{"description":"d","content":{"application/json":{"schema":{"$ref":"#/components/schemas/Err"}}}}}}},
+ "/req":{"post":{"operationId":"req","parameters":[{"name":"f","in":"query","content":{"application/json":{"schema":{"$ref":"#/components/schemas/Pet"}}}},{"name":"g","in":"header","content":{"application/json":{"schema":{"type":"array","items":{"type":"integer"}}}}}],
+   "requestBody":{"content":{"application/json":{"schema":{"$ref":"#/components/schemas/Pet"}},"image/*":{"schema":{"type":"string","format":"binary"}},"application/octet-stream":{"schema":{"type":"string","format":"binary"}},"text/*":{"schema":{"type":"string","format":"binary"}}}},
+   "responses":{"200":{"description":"ok","content":{"application/json":{"schema":{"$ref":"#/components/schemas/Merged"}}}}}}}},
+"webhooks":{"zeta":{"post":{"operationId":"hookZ","requestBody":{"content":{"application/json":{"schema":{"$ref":"#/components/schemas/Pet"}}}},"responses":{"200":{"description":"ok"}}}},
+ "alpha":{"post":{"operationId":"hookA","requestBody":{"content":{"application/json":{"schema":{"$ref":"#/components/schemas/Err"}}}},"responses":{"200":{"description":"ok"}}}},
+ "mid":{"post":{"operationId":"hookM","requestBody":{"content":{"application/json":{"schema":{"type":"string"}}}},"responses":{"200":{"description":"ok"}}}}},
+"components":{"securitySchemes":{"O":{"type":"oauth2","flows":{"clientCredentials":{"tokenUrl":"https://x/t","scopes":{"read":"r","write":"w","admin":"a","audit":"u","x1":"1","x2":"2"}},"password":{"tokenUrl":"https://x/p","scopes":{"read":"r","x2":"2"}}}},"K":{"type":"apiKey","in":"header","name":"X-K"}},
+ "schemas":{
+  "Err":{"type":"object","properties":{"m":{"type":"string"}},"x-ogen-name":"Failure","x-zzz":1,"x-aaa":2},
+  "Pet":{"oneOf":[{"$ref":"#/components/schemas/Cat"},{"$ref":"#/components/schemas/Dog"},{"$ref":"#/components/schemas/Eel"}],"discriminator":{"propertyName":"kind","mapping":{"zcat":"#/components/schemas/Cat","adog":"#/components/schemas/Dog","meel":"#/components/schemas/Eel","cat2":"#/components/schemas/Cat"}}},
+  "Cat":{"type":"object","required":["kind"],"properties":{"kind":{"type":"string"},"c":{"type":"integer"}}},
+  "Dog":{"type":"object","required":["kind"],"properties":{"kind":{"type":"string"},"d":{"type":"string"}}},
+  "Eel":{"type":"object","required":["kind"],"properties":{"kind":{"type":"string"},"e":{"type":"boolean"}}},
+  "Pat":{"type":"object","patternProperties":{"^z":{"type":"string"},"^a":{"type":"string"}}},
+  "Merged":{"allOf":[{"type":"object","properties":{"z":{"type":"string"},"a":{"type":"integer"}},"required":["z"]},{"type":"object","properties":{"m":{"type":"boolean"},"b":{"$ref":"#/components/schemas/Pat"}},"required":["m"]},{"$ref":"#/components/schemas/Cat"}]}}}}`
+
+// RefsSpec: every kind of component, each referenced from where it can be used (and the components
+// referring on to each other), so that a fault placed in a component is met through a reference.
+const RefsSpec = `{"openapi":"3.1.0","info":{"title":"t","version":"1"},
+"paths":{
+ "/a/{id}":{"parameters":[{"$ref":"#/components/parameters/ID"}],
+  "post":{"operationId":"a","security":[{"K":[]}],"parameters":[{"$ref":"#/components/parameters/Q"}],"requestBody":{"$ref":"#/components/requestBodies/B"},
+   "responses":{"200":{"$ref":"#/components/responses/R"},"default":{"$ref":"#/components/responses/E"}}}},
+ "/b":{"$ref":"#/components/pathItems/PI"},
+ "/c":{"get":{"operationId":"c","parameters":[{"name":"q","in":"query","schema":{"$ref":"#/components/schemas/S"},"examples":{"e1":{"$ref":"#/components/examples/Ex"}}}],
+   "responses":{"200":{"description":"ok","headers":{"X-H":{"$ref":"#/components/headers/H"}},"content":{"application/json":{"schema":{"$ref":"#/components/schemas/S"},"examples":{"e2":{"$ref":"#/components/examples/Ex"},"e3":{"$ref":"#/components/examples/Ex2"}}}}}}}}},
+"webhooks":{"w":{"$ref":"#/components/pathItems/PI2"}},
+"components":{
+ "schemas":{"S":{"type":"object","required":["a"],"properties":{"a":{"type":"string","minLength":1},"t":{"$ref":"#/components/schemas/T"}}},"T":{"type":"integer","minimum":0},"Err":{"type":"object","properties":{"m":{"type":"string"}}}},
+ "parameters":{"ID":{"name":"id","in":"path","required":true,"schema":{"$ref":"#/components/schemas/T"}},"Q":{"name":"q","in":"query","schema":{"$ref":"#/components/schemas/T"},"example":1}},
+ "headers":{"H":{"required":true,"schema":{"$ref":"#/components/schemas/T"},"description":"hdr"}},
+ "examples":{"Ex":{"summary":"ex","value":{"a":"x"}},"Ex2":{"value":{"a":"y","t":1}}},
+ "requestBodies":{"B":{"required":true,"content":{"application/json":{"schema":{"$ref":"#/components/schemas/S"},"examples":{"e":{"$ref":"#/components/examples/Ex"}}},"application/x-www-form-urlencoded":{"schema":{"$ref":"#/components/schemas/S"}}}}},
+ "responses":{"R":{"description":"r","headers":{"X-H":{"$ref":"#/components/headers/H"}},"content":{"application/json":{"schema":{"$ref":"#/components/schemas/S"},"examples":{"e":{"$ref":"#/components/examples/Ex2"}}}}},
+  "E":{"description":"e","content":{"application/json":{"schema":{"$ref":"#/components/schemas/Err"}}}}},
+ "securitySchemes":{"K":{"$ref":"#/components/securitySchemes/K2"},"K2":{"type":"apiKey","in":"header","name":"X-K"}},
+ "pathItems":{"PI":{"get":{"operationId":"b","responses":{"200":{"$ref":"#/components/responses/R"}}}},"PI2":{"post":{"operationId":"hook","requestBody":{"$ref":"#/components/requestBodies/B"},"responses":{"200":{"description":"ok"}}}}}}}`
